@@ -500,6 +500,9 @@ Definition rcb (v : variant) (fuel : nat) (sched : N -> nat -> stree) (D k : nat
 
 Definition seq_sched : N -> nat -> stree := fun _ _ => SLeaf.
 
+(* a finite binary32 value in canonical form (what the operations return) *)
+Definition f32_fin (x : spec_float) : bool := valid_binary 24 128 x && is_finite x.
+
 (* premise of the C04 theorem, decidable: the root box (f64 min/max, then
    `as f32`) has finite bounds that enclose the binary32 coordinates (true
    whenever `as f32` is monotone; evaluated on every generated case) *)
@@ -507,7 +510,7 @@ Fixpoint box_ok_from (a : nat) (bb : box spec_float) (its : list item32) : bool 
   match bb with
   | [] => true
   | (mn, mx) :: t =>
-    is_finite mn && is_finite mx
+    f32_fin mn && f32_fin mx
     && forallb (fun it => match nth_opt (co it) a with
                           | Some c => negb (flt c mn) && negb (flt mx c)
                           | None => true
